@@ -1,7 +1,429 @@
-//! C05: correspondence + oracle runs (sub-commands `c05` / `c05-*`).
+//! C05 — the simulated link delivers frames as configured, to the right taps.
+//!
+//! Scenario = 1..4 networks (MTU, constant/variable latency and throughput), 2..6 machines whose
+//! Pci taps sit on them, `Recorder<0>` on every machine as the protocol named in the frames
+//! (records `pci::DemuxInfo`, bytes, virtual time) and as the sender (`send_pci` at scheduled
+//! instants, many at the same instant).  The frame hook sees every frame when it enters
+//! `Network::send` and when it is handed to each tap.
+//!
+//! Op stream: `cfg …` (re-executable scenario), `tap` per attached tap (MAC allocation),
+//! `sendpci` per `send_pci` call (result), `wire` per frame entering the network in the order it
+//! queues for the medium (recipients + delivery instant), `end`.  `Model/Link.lean` replays them.
+//! Oracle = the property, from the configuration only: right taps, exactly once, bytes and
+//! sender unchanged, MTU refusal, distinct MACs, not earlier than the latency, not faster than
+//! the throughput.
+use crate::scaffold::*;
 use hcommon::*;
+use std::collections::{BTreeMap, BTreeSet};
+
+const BROADCAST: u64 = 0xFFFF_FFFF_FFFF;
+const RULE: &str = "scenario = networks x taps x timed send_pci calls; non-trivial if at least one unicast, one broadcast and one refused or unknown-destination frame occur, or two frames queue for a throughput-limited medium at the same instant; distinct = hash of the cfg lines";
+
+fn fnv(b: &[u8]) -> u32 {
+    let mut h: u32 = 0x811c9dc5;
+    for x in b {
+        h ^= *x as u32;
+        h = h.wrapping_mul(0x01000193);
+    }
+    h
+}
+
+fn gen_scenario(seed: u64) -> Scenario {
+    let mut r = Rng::new(seed);
+    let n_nets = *r.pick(&[1usize, 1, 2, 2, 3, 4]);
+    let nets: Vec<NetSpec> = (0..n_nets)
+        .map(|_| NetSpec {
+            mtu: *r.pick(&[None, Some(1500), Some(1500), Some(576), Some(100), Some(68), Some(1)]),
+            lat_us: match r.below(8) {
+                0..=2 => (0, 0),
+                3 => (1000, 0),
+                4 => (r.range(1, 40) * 1000, 0),
+                5 => (r.range(1, 9) * 250, 0),
+                6 => (r.range(0, 10) * 1000, r.range(1, 10) * 1000),
+                _ => (0, 3500),
+            },
+            thr: match r.below(9) {
+                0..=2 => (0, 0),
+                3 => (1000, 0),
+                4 => (34_000, 0),
+                5 => (1_000_000, 0),
+                6 => (12_500_000, 0),
+                7 => (r.range(1, 2000) * 1000, 0),
+                _ => (r.range(1, 500) * 1000, r.range(1, 500) * 1000),
+            },
+        })
+        .collect();
+    let n_machines = r.range(2, 6) as usize;
+    let mut machines: Vec<MachineSpec> = (0..n_machines)
+        .map(|_| {
+            let mut ns: Vec<usize> = (0..n_nets).filter(|_| r.chance(3, 5)).collect();
+            if ns.is_empty() {
+                ns.push(r.below(n_nets as u64) as usize);
+            }
+            if r.chance(1, 6) {
+                // two taps of one machine on the same network
+                let extra = *r.pick(&ns);
+                ns.push(extra);
+            }
+            MachineSpec { nets: ns, udp: false, ..Default::default() }
+        })
+        .collect();
+    // every network gets at least two taps, at most eight
+    for n in 0..n_nets {
+        while machines.iter().map(|m| m.nets.iter().filter(|x| **x == n).count()).sum::<usize>() < 2 {
+            let k = r.below(n_machines as u64) as usize;
+            machines[k].nets.push(n);
+        }
+    }
+    let sc0 = Scenario { nets: nets.clone(), machines: machines.clone(), mode: RtMode::Paused, duration_us: 0 };
+    let macs = sc0.macs();
+    let net_of: Vec<Vec<usize>> = machines.iter().map(|m| m.nets.clone()).collect();
+    let taps_of = |n: usize| -> Vec<u64> { macs.iter().enumerate().flat_map(|(mi, ms)| ms.iter().enumerate().filter(|(s, _)| net_of[mi][*s] == n).map(|(_, m)| *m).collect::<Vec<_>>()).collect() };
+    let instants: Vec<u64> = (0..3).map(|_| r.below(6) * 1000).collect();
+    for mi in 0..n_machines {
+        let mut script = vec![];
+        let n_send = *r.pick(&[0usize, 1, 2, 3, 4, 6]);
+        for _ in 0..n_send {
+            let slot = r.below(machines[mi].nets.len() as u64) as u32;
+            let net = machines[mi].nets[slot as usize];
+            let taps = taps_of(net);
+            let dst = match r.below(10) {
+                0..=4 => Some(*r.pick(&taps)),
+                5 => Some(macs[mi][slot as usize]),
+                6 => Some(r.range(50, 60)),
+                7 => Some(BROADCAST),
+                _ => None,
+            };
+            let mtu = nets[net].mtu.map(|m| m as usize).unwrap_or(65535);
+            let len = match r.below(10) {
+                0 => mtu,
+                1 => mtu + 1,
+                2 => mtu.saturating_sub(1),
+                3 => 0,
+                4 => 1,
+                _ => r.below(mtu.min(1200) as u64 + 1) as usize,
+            };
+            // frames of the same size in bursts make throughput windows interesting
+            let len = if mtu == 65535 && !r.chance(1, 20) { len.min(1500) } else { len };
+            let bytes = r.bytes(len);
+            let at = if r.chance(3, 4) { *r.pick(&instants) } else { r.below(20) * 500 };
+            script.push(Action { at: Some(at), kind: ActionKind::SendPci { slot, dst, target: Target::Rec(0), bytes } });
+        }
+        machines[mi].apps.push(AppSpec { n: 0, script, echo: false });
+    }
+    Scenario { nets, machines, mode: RtMode::Paused, duration_us: 600_000_000 }
+}
+
+fn execute(cfg_lines: &[String]) -> CaseReport {
+    let mut rep = CaseReport::default();
+    for l in cfg_lines {
+        rep.line(format!("cfg {}", l), "cfg");
+    }
+    let sc = match Scenario::from_lines(cfg_lines.iter().map(|s| s.as_str())) {
+        Ok(s) => s,
+        Err(e) => {
+            rep.line("bad-scenario", e);
+            return rep;
+        }
+    };
+    let res = run_scenario(&sc, None);
+    analyse(&sc, &res, &mut rep);
+    rep
+}
+
+struct Accepted {
+    net: usize,
+    smac: u64,
+    dst: Option<u64>,
+    bytes: Vec<u8>,
+    t_submit: u64,
+    /// (tap mac, time, what the recorder saw)
+    got: Vec<(u64, u64)>,
+    t_wire: Option<u64>,
+}
+
+fn analyse(sc: &Scenario, res: &RunResult, rep: &mut CaseReport) {
+    let evs = &res.events;
+    let macs = &res.macs;
+    // ---- taps and MAC allocation ----
+    let mut tap_of: BTreeMap<(usize, u64), (usize, u32)> = BTreeMap::new();
+    for (mi, m) in sc.machines.iter().enumerate() {
+        for (s, n) in m.nets.iter().enumerate() {
+            let mac = macs[mi][s];
+            rep.line(format!("tap {} {} {}", n, mi, s), format!("mac {}", mac));
+            if tap_of.insert((*n, mac), (mi, s as u32)).is_some() {
+                rep.fail(format!("network {}: MAC {} was given to two taps", n, mac), "mac-not-distinct");
+            }
+            if mac == BROADCAST {
+                rep.fail(format!("network {}: a tap got the broadcast address", n), "mac-is-broadcast");
+            }
+        }
+    }
+    for (n, taps) in res.taps.iter().enumerate() {
+        let mine: Vec<u64> = tap_of.keys().filter(|k| k.0 == n).map(|k| k.1).collect();
+        if *taps != mine {
+            rep.fail(format!("network {}: registered taps {:?} differ from the taps handed to the machines {:?}", n, taps, mine), "tap-registry");
+        }
+    }
+    // ---- walk the log ----
+    let mut demux_by_cause: BTreeMap<usize, Vec<&Event>> = BTreeMap::new();
+    for e in evs {
+        if let Ev::Demux { cause: Some(c), .. } = &e.ev {
+            demux_by_cause.entry(*c).or_default().push(e);
+        } else if let Ev::Demux { cause: None, .. } = &e.ev {
+            rep.fail("a recorder was called outside any tap delivery", "demux-without-arrival");
+        }
+    }
+    let mut accepted: Vec<Accepted> = vec![];
+    // pending[(net, smac, dst, bytes)] -> indices into accepted not yet seen on the wire
+    let mut pending: BTreeMap<(usize, u64, Option<u64>, Vec<u8>), Vec<usize>> = BTreeMap::new();
+    let mut wire_idx: BTreeMap<usize, usize> = BTreeMap::new(); // Wire-send event id -> accepted idx
+    let mut current: BTreeMap<(usize, u64, Option<u64>, Vec<u8>), Vec<usize>> = BTreeMap::new(); // in flight
+    let mut kinds: BTreeSet<&'static str> = BTreeSet::new();
+    for e in evs {
+        match &e.ev {
+            Ev::PciSend { machine, slot, dst, len, result, act, .. } => {
+                let net = sc.machines[*machine].nets[*slot as usize];
+                let smac = macs[*machine][*slot as usize];
+                let bytes = match &sc.machines[*machine].apps[0].script[*act].kind {
+                    ActionKind::SendPci { bytes, .. } => bytes.clone(),
+                    _ => vec![],
+                };
+                let mtu = sc.nets[net].mtu.map(|m| m as usize).unwrap_or(65535);
+                let cls = match result.as_str() {
+                    "ok" => "ok",
+                    "err:Mtu" => "err:mtu",
+                    o => o,
+                };
+                rep.line(format!("sendpci {} t={} smac={} dst={} len={} fnv={:08x}", net, e.t_us, smac, fmt_mac(*dst), len, fnv(&bytes)), cls);
+                rep.count(format!("sendpci.{}", cls));
+                rep.count(if *len == mtu { "len.mtu" } else if *len == mtu + 1 { "len.mtu+1" } else if *len + 1 == mtu { "len.mtu-1" } else { "len.other" });
+                // property: longer than the MTU -> refused with an error; otherwise accepted
+                if (*len > mtu) != (cls == "err:mtu") || (*len <= mtu) != (cls == "ok") {
+                    rep.fail(format!("send_pci of {} bytes on a network with MTU {} returned {}", len, mtu, result), if *len > mtu { "oversize-accepted" } else { "fitting-refused" });
+                }
+                if cls == "ok" {
+                    let idx = accepted.len();
+                    accepted.push(Accepted { net, smac, dst: *dst, bytes: bytes.clone(), t_submit: e.t_us, got: vec![], t_wire: None });
+                    pending.entry((net, smac, *dst, bytes)).or_default().push(idx);
+                } else {
+                    kinds.insert("refused");
+                }
+            }
+            Ev::Wire { net, to: None, smac, dst, target, bytes, .. } => {
+                let key = (*net, *smac, *dst, bytes.clone());
+                match pending.get_mut(&key).and_then(|v| if v.is_empty() { None } else { Some(v.remove(0)) }) {
+                    Some(idx) if *target == Target::Rec(0) => {
+                        accepted[idx].t_wire = Some(e.t_us);
+                        wire_idx.insert(e.id, idx);
+                        current.entry(key).or_default().push(idx);
+                    }
+                    _ => rep.fail(format!("network {}: a frame of {} bytes from MAC {} is on the wire that no send_pci call accepted", net, bytes.len(), smac), "wire-without-send"),
+                }
+            }
+            Ev::Wire { net, to: Some(mac), smac, dst, bytes, .. } => {
+                let key = (*net, *smac, *dst, bytes.clone());
+                // FIFO among identical frames in flight: attribute to the oldest not yet delivered to this tap
+                let idx = current.get(&key).and_then(|v| v.iter().copied().find(|i| !accepted[*i].got.iter().any(|g| g.0 == *mac)));
+                match idx {
+                    Some(i) => {
+                        accepted[i].got.push((*mac, e.t_us));
+                        // what the recorder on that machine saw
+                        let ds = demux_by_cause.get(&e.id).cloned().unwrap_or_default();
+                        let exp_tap = tap_of.get(&(*net, *mac));
+                        let ok = ds.len() == 1
+                            && match (&ds[0].ev, exp_tap) {
+                                (Ev::Demux { machine, payload, link: Some(l), .. }, Some((mi, slot))) => {
+                                    machine == mi && payload == bytes && l.slot == *slot && l.src == *smac && l.dst == *dst && l.mtu as usize == sc.nets[*net].mtu.map(|m| m as usize).unwrap_or(65535)
+                                }
+                                _ => false,
+                            };
+                        if !ok {
+                            rep.fail(
+                                format!("network {}: frame from MAC {} to {} handed to tap {}: the protocol named in the frame saw {:?}", net, smac, fmt_mac(*dst), mac, ds.iter().map(|d| format!("{:?}", d.ev)).collect::<Vec<_>>()),
+                                "payload-or-linkinfo-changed",
+                            );
+                        }
+                    }
+                    None => rep.fail(format!("network {}: tap {} is handed a frame from MAC {} that is not in flight (again?)", net, mac, smac), "delivery-without-frame"),
+                }
+            }
+            _ => {}
+        }
+    }
+    // ---- wire lines in the order frames queued for the medium ----
+    let mut wire_events: Vec<(&Event, usize)> = evs.iter().filter_map(|e| wire_idx.get(&e.id).map(|i| (e, *i))).collect();
+    wire_events.sort_by_key(|(e, _)| e.id);
+    let mut same_instant_queue = false;
+    let mut last_wire_t: BTreeMap<usize, u64> = BTreeMap::new();
+    for (e, i) in &wire_events {
+        let a = &accepted[*i];
+        let spec = &sc.nets[a.net];
+        if spec.thr.0 > 0 && last_wire_t.get(&a.net) == Some(&e.t_us) {
+            same_instant_queue = true;
+        }
+        last_wire_t.insert(a.net, e.t_us);
+        let mut to: Vec<String> = a
+            .got
+            .iter()
+            .map(|(mac, _)| {
+                let (mi, slot) = tap_of.get(&(a.net, *mac)).copied().unwrap_or((99, 99));
+                format!("{}/m{}s{}", mac, mi, slot)
+            })
+            .collect();
+        to.sort();
+        let times: BTreeSet<u64> = a.got.iter().map(|g| g.1).collect();
+        let variable = spec.lat_us.1 > 0 || spec.thr.1 > 0;
+        let obs = times.iter().next().copied();
+        let t_part = if a.got.is_empty() {
+            "deliver=-".to_string()
+        } else if times.len() > 1 {
+            format!("deliver=split:{:?}", times)
+        } else if variable {
+            "deliver=within".to_string()
+        } else {
+            format!("deliver={}", obs.unwrap())
+        };
+        rep.line(
+            format!("wire {} t={} smac={} dst={} len={} fnv={:08x} obs={}", a.net, e.t_us, a.smac, fmt_mac(a.dst), a.bytes.len(), fnv(&a.bytes), obs.map(|t| t.to_string()).unwrap_or("-".into())),
+            format!("to={} {}", if to.is_empty() { "-".to_string() } else { to.join(",") }, t_part),
+        );
+    }
+    rep.line("end", format!("end pending={}", pending.values().map(|v| v.len()).sum::<usize>()));
+    // ---- property oracle per accepted frame ----
+    for a in &accepted {
+        let taps: Vec<u64> = tap_of.keys().filter(|k| k.0 == a.net).map(|k| k.1).collect();
+        let spec = &sc.nets[a.net];
+        let got: Vec<u64> = a.got.iter().map(|g| g.0).collect();
+        let mut sorted = got.clone();
+        sorted.sort();
+        let dup = sorted.windows(2).any(|w| w[0] == w[1]);
+        if dup {
+            rep.fail(format!("network {}: frame from {} to {} delivered more than once to a tap: {:?}", a.net, a.smac, fmt_mac(a.dst), got), "delivered-twice");
+        }
+        match a.dst {
+            Some(d) if d != BROADCAST && taps.contains(&d) => {
+                kinds.insert("unicast");
+                rep.count("dest.unicast");
+                if sorted != vec![d] {
+                    rep.fail(format!("network {}: unicast frame from {} to {} reached taps {:?}", a.net, a.smac, d, got), if got.is_empty() { "unicast-lost" } else { "unicast-leaked" });
+                }
+            }
+            Some(d) if d != BROADCAST => {
+                kinds.insert("unknown");
+                rep.count("dest.unknown");
+                if !got.is_empty() {
+                    rep.fail(format!("network {}: frame to unknown MAC {} reached taps {:?}", a.net, d, got), "unknown-delivered");
+                }
+            }
+            _ => {
+                kinds.insert("broadcast");
+                rep.count("dest.broadcast");
+                let others: Vec<u64> = taps.iter().copied().filter(|t| *t != a.smac).collect();
+                if others.iter().any(|t| !got.contains(t)) || got.iter().any(|g| !taps.contains(g)) {
+                    rep.fail(format!("network {}: broadcast from {} reached {:?}, every other tap is {:?}", a.net, a.smac, got, others), "broadcast-incomplete");
+                }
+            }
+        }
+        // not earlier than the configured latency
+        for (mac, t) in &a.got {
+            if *t < a.t_submit + spec.lat_us.0 {
+                rep.fail(format!("network {}: frame submitted at {} us reached tap {} at {} us, latency is {} us", a.net, a.t_submit, mac, t, spec.lat_us.0), "earlier-than-latency");
+            }
+        }
+        if a.t_wire.is_none() {
+            rep.fail(format!("network {}: accepted frame from {} never entered the network", a.net, a.smac), "accepted-not-on-wire");
+        }
+    }
+    // not faster than the configured throughput: bytes that complete in any window
+    // <= thr * window + one frame (1 ms granularity of the API, plus the latency jitter)
+    for (n, spec) in sc.nets.iter().enumerate() {
+        if spec.thr.0 == 0 {
+            continue;
+        }
+        let thr_max = (spec.thr.0 + spec.thr.1.saturating_sub(1)) as u128;
+        // in the order the frames queued for the medium (= order of the hook's send events);
+        // frames to unknown MACs are never handed to a tap: they still occupy the medium, which
+        // only makes the bound easier for the others; they are left out
+        let done: Vec<(u64, usize)> = wire_events
+            .iter()
+            .map(|(_, i)| &accepted[*i])
+            .filter(|a| a.net == n && !a.got.is_empty())
+            .map(|a| (a.got.iter().map(|g| g.1).min().unwrap(), a.bytes.len()))
+            .collect();
+        let slack = 1000 + spec.lat_us.1 as u128;
+        let mut worst: Option<(u64, u64, u128)> = None;
+        for i in 0..done.len() {
+            let mut bytes: u128 = 0;
+            for j in i + 1..done.len() {
+                bytes += done[j].1 as u128;
+                let window = done[j].0.saturating_sub(done[i].0) as u128;
+                if bytes * 1_000_000 > thr_max * (window + slack) {
+                    worst = Some((done[i].0, done[j].0, bytes));
+                }
+            }
+        }
+        rep.count("throughput.networks_checked");
+        if let Some((a, b, bytes)) = worst {
+            rep.fail(
+                format!("network {}: {} bytes (not counting the frame in transmission at the start) completed between {} us and {} us on a {} B/s medium", n, bytes, a, b, thr_max),
+                "faster-than-throughput",
+            );
+        }
+    }
+    rep.nontrivial = (kinds.contains("unicast") && kinds.contains("broadcast") && (kinds.contains("refused") || kinds.contains("unknown"))) || same_instant_queue;
+    if same_instant_queue {
+        rep.count("queue.same_instant");
+    }
+    rep.count(format!("nets.{}", sc.nets.len()));
+    for (n, spec) in sc.nets.iter().enumerate() {
+        let k = tap_of.keys().filter(|k| k.0 == n).count();
+        rep.count(format!("taps_per_net.{}", k));
+        rep.count(match spec.lat_us { (0, 0) => "lat.none", (_, 0) => "lat.constant", _ => "lat.variable" });
+        rep.count(match spec.thr { (0, 0) => "thr.none", (_, 0) => "thr.constant", _ => "thr.variable" });
+    }
+    rep.count(format!("status.{}", res.status));
+}
+
+fn cfg_lines_of(spec: &str) -> Vec<String> {
+    let mut it = spec.lines();
+    let head = it.next().unwrap_or("");
+    let w: Vec<&str> = head.split_whitespace().collect();
+    match w.as_slice() {
+        ["gen", _id, seed] => gen_scenario(seed.parse().unwrap_or(1)).to_lines(),
+        _ => it.filter(|l| l.starts_with("cfg ")).map(|l| l[4..].to_string()).collect(),
+    }
+}
 
 pub fn run(args: &Args) {
-    eprintln!("hfull: {} not implemented yet", args.prop);
-    std::process::exit(2);
+    if is_worker(args) {
+        worker_loop(|spec| execute(&cfg_lines_of(spec)));
+        return;
+    }
+    let mut out = Out::new(&args.out);
+    let specs: Vec<String> = if let Some(rp) = &args.replay {
+        vec![format!("replay\n{}", read_ops(rp).join("\n"))]
+    } else {
+        let mut rng = Rng::new(args.seed);
+        (0..args.cases).map(|c| format!("gen {} {}", c, rng.next() >> 1)).collect()
+    };
+    let workers = args.extra.get("workers").and_then(|s| s.parse().ok()).unwrap_or_else(default_workers);
+    let outcomes = run_cases(&args.prop, &specs, workers, 25, 120);
+    for (c, o) in outcomes.iter().enumerate() {
+        out.begin_case(c as u64);
+        match o {
+            CaseOutcome::Done(rep) => rep.emit(&mut out),
+            CaseOutcome::Died { stderr, .. } => {
+                for l in &cfg_lines_of(&specs[c]) {
+                    out.line(&format!("cfg {}", l), "cfg");
+                }
+                let (line, ident) = died_ident(o);
+                out.line("crash", &line);
+                out.mark_nontrivial();
+                out.fail(&format!("the simulation process died while running this scenario: {} :: {}", ident, stderr.lines().take(6).collect::<Vec<_>>().join(" / ")), &ident);
+            }
+        }
+        out.end_case();
+    }
+    out.finish(RULE);
 }
